@@ -91,6 +91,22 @@ fn wrappers() -> Vec<Value> {
     }
     rt!("datetime", ElixirDateTime::utc(2024, 2, 29, 0, 0, 0, 0, 0), ElixirDateTime);
     rt!("naive_datetime", ElixirNaiveDateTime::new(i32::MAX, 12, 31, 23, 59, 59, 999_999, 6), ElixirNaiveDateTime);
+    // every value a public field can hold is a value of the wrapper: field values the constructors would not produce (built as literals)
+    for p in [7u8, 9, 255] {
+        rt!("naive_datetime", ElixirNaiveDateTime { year: 2024, month: 2, day: 29, hour: 23, minute: 59, second: 58, microsecond_value: 1, microsecond_precision: p }, ElixirNaiveDateTime);
+        rt!("time", ElixirTime { hour: 23, minute: 59, second: 58, microsecond_value: 1, microsecond_precision: p }, ElixirTime);
+        let mut dt = ElixirDateTime::utc(2024, 2, 29, 0, 0, 0, 1, 6);
+        dt.microsecond_precision = p;
+        rt!("datetime", dt, ElixirDateTime);
+    }
+    rt!("naive_datetime", ElixirNaiveDateTime { year: 2024, month: 13, day: 0, hour: 24, minute: 60, second: 61, microsecond_value: 1_000_000, microsecond_precision: 6 }, ElixirNaiveDateTime);
+    rt!("time", ElixirTime { hour: 255, minute: 255, second: 255, microsecond_value: u32::MAX, microsecond_precision: 0 }, ElixirTime);
+    rt!("naive_datetime", ElixirNaiveDateTime { year: i32::MIN, month: 255, day: 255, hour: 255, minute: 255, second: 255, microsecond_value: 1 << 31, microsecond_precision: 255 }, ElixirNaiveDateTime);
+    {
+        let mut dt = ElixirDateTime::utc(2024, 2, 29, 0, 0, 0, 1, 6);
+        dt.microsecond_value = u32::MAX;
+        rt!("datetime", dt, ElixirDateTime);
+    }
     // map sets: duplicates in the input, nested sets, terms of every kind
     rt!("map_set", ElixirMapSet::from_values(vec![OwnedTerm::Integer(1), OwnedTerm::Integer(1), OwnedTerm::Float(1.0), OwnedTerm::Atom(Atom::new("a")), OwnedTerm::Atom(Atom::new("a"))]), ElixirMapSet);
     rt!("map_set", ElixirMapSet::from_values(vec![OwnedTerm::from(ElixirMapSet::from_values(vec![OwnedTerm::Integer(2)])), OwnedTerm::Nil, OwnedTerm::Map(Default::default())]), ElixirMapSet);
